@@ -314,6 +314,11 @@ static void cmd_guard(int nt, char **t)
 	  o = json_tokener_parse_ex(tok, (char *)s, -2); sizeerr = (int)json_tokener_get_error(tok); if (sizeerr >= 0 && sizeerr < 32) errhist[sizeerr]++; json_object_put(o);
 	  if (o || sizeerr != (int)json_tokener_error_size) { if (!n_tri_viol) snprintf(tri_msg, sizeof tri_msg, "len=-2 gave err=%d nonnull=%d", sizeerr, o != NULL); n_tri_viol++; }
 	  json_tokener_reset(tok);
+	  /* the same refusal from a tokener that has parsed something before and was reset: it consumed nothing, so it reports position 0, like a fresh one */
+	  o = json_tokener_parse_ex(tok, (char *)s, (int)n); json_object_put(o); json_tokener_reset(tok);
+	  o = json_tokener_parse_ex(tok, (char *)s, -2); json_object_put(o);
+	  if (json_tokener_get_error(tok) != json_tokener_error_size || json_tokener_get_parse_end(tok) != 0) { if (!n_tri_viol) snprintf(tri_msg, sizeof tri_msg, "len=-2 after use+reset gave err=%d end=%zu", (int)json_tokener_get_error(tok), json_tokener_get_parse_end(tok)); n_tri_viol++; }
+	  json_tokener_reset(tok);
 	  sm_state = n * 31 + (size_t)flags;
 	  while (off < n) {
 		size_t len = 1 + (size_t)(sm() % 17); char *b2;
